@@ -412,6 +412,13 @@ def loadCampaign (c : CampaignD) : Except Err CampaignD :=
   | .error e => .error e
   | .ok es => .ok { c with events := es }
 
+/-- `self.match_type = match_type or None`; a keyword trigger without one gets `"F"` -/
+def loadMatchType (ty : Str) (m : Option Blob) : Blob :=
+  if falsy (m.getD jNull) then (if ty = strK then jMatchF else jNull) else m.getD jNull
+
+/-- `if self.match_type: render_dict.update(...)` -/
+def renderMatchType (b : Blob) : Option Blob := if falsy b then none else some b
+
 /-- `not keywords or not keywords[0]` -/
 def firstFalsy : List Blob → Bool
   | [] => true
@@ -428,11 +435,10 @@ def loadTrigger (t : TriggerD) : Except Err TriggerC :=
   | some ks =>
     if t.type = strK ∧ firstFalsy ks = true then .error .valueError
     else
-      let mt := t.matchType.getD jNull
       .ok {
         type := t.type, keywords := ks,
         channel := if falsy t.channel then jNull else t.channel,
-        matchType := if falsy mt then (if t.type = strK then jMatchF else jNull) else mt,
+        matchType := loadMatchType t.type t.matchType,
         flow := t.flow, groups := t.groups, excludeGroups := t.excludeGroups.getD [] }
 
 /-- `RapidProContainer.from_dict` -/
@@ -660,7 +666,7 @@ def renderTrigger (t : TriggerC) : TriggerD :=
     keyword := some (match t.keywords with | [] => jNull | k :: _ => k),
     keywords := some t.keywords,
     channel := t.channel,
-    matchType := if falsy t.matchType then none else some t.matchType,
+    matchType := renderMatchType t.matchType,
     flow := t.flow,
     groups := t.groups.map renderGroup,
     excludeGroups := some (t.excludeGroups.map renderGroup) }
